@@ -112,6 +112,13 @@ def c13_pair(ctx, la, lb):
 
 def replay_c13(ctx, fl):
     """native replay of a C13 counterexample"""
+    if fl["kind"] in ("evr", "evreq"):
+        H = Native.hex
+        args = [H(bytes.fromhex(fl[k])) for k in ("e1", "v1", "r1", "e2", "v2", "r2")]
+        eq, o = ctx.native.ask("evr_eq", *args).split()
+        if fl["kind"] == "evreq":
+            return eq == "true" and int(o) != 0, "real crate: == is %s, cmp is %s" % (eq, o)
+        return int(o) != fl["expected"], "real crate: cmp is %s, specification %s" % (o, fl["expected"])
     a, b = bytes.fromhex(fl["a"]), bytes.fromhex(fl["b"])
     real = vercmp_native(ctx, a, b)
     if fl["kind"] == "ref":
@@ -123,6 +130,13 @@ def replay_c13(ctx, fl):
         return real != -real2, "cmp(a,b)=%s cmp(b,a)=%s for (%r, %r)" % (real, real2, a, b)
     if fl["kind"] == "refl":
         return real != 0, "cmp(a,a)=%s for %r" % (real, a)
+    if fl["kind"] in ("evr", "evreq"):
+        H = Native.hex
+        args = [H(bytes.fromhex(fl[k])) for k in ("e1", "v1", "r1", "e2", "v2", "r2")]
+        eq, o = ctx.native.ask("evr_eq", *args).split()
+        if fl["kind"] == "evreq":
+            return eq == "true" and int(o) != 0, "real crate: == is %s, cmp is %s" % (eq, o)
+        return int(o) != fl["expected"], "real crate: cmp is %s, specification %s" % (o, fl["expected"])
     if fl["kind"] == "trans":
         c = bytes.fromhex(fl["c"])
         rab, rbc, rac = real, vercmp_native(ctx, b, c), vercmp_native(ctx, a, c)
@@ -134,6 +148,100 @@ def replay_c13(ctx, fl):
 for _la in range(0, 5):
     for _lb in range(_la, 5):
         HARNESSES["c13_vercmp_%d_%d" % (_la, _lb)] = (lambda la, lb: (lambda ctx: c13_pair(ctx, la, lb)))(_la, _lb)
+
+
+def c13_prefixed(ctx, pa, pb, la, lb):
+    """strings = literal prefix + symbolic tail: long digit runs / shared prefixes that short exhaustive shapes cannot reach"""
+    f = ctx.find_fn(r"(version::)?compare_version_string")
+    ex = Exec(ctx.funcs, intrinsics.I)
+    ctx.stats = ex.stats
+    ctx.bounds = "a = %r + %d symbolic ASCII bytes, b = %r + %d symbolic ASCII bytes" % (pa.decode(), la, pb.decode(), lb)
+
+    def setup(e):
+        return sym_bytes(e, "a", la), sym_bytes(e, "b", lb)
+
+    def body(e, inp):
+        a = [z3.BitVecVal(x, 8) for x in pa] + inp[0]
+        b = [z3.BitVecVal(x, 8) for x in pb] + inp[1]
+        r1 = e.call_fn(f, [Str(a), Str(b)])
+        r2 = e.call_fn(f, [Str(b), Str(a)])
+        return ORD[r1.variant], ORD[r2.variant], refs.rpmvercmp(e, a, b), refs.rpmvercmp(e, b, a)
+
+    def on_path(e, inp, out):
+        k, v = out
+        a = pa + model_bytes(e, inp[0])
+        b = pb + model_bytes(e, inp[1])
+        if k != "return":
+            ctx.fail("version comparison panics: %s" % (v,), "compare_version_string", a=a.hex(), b=b.hex(), kind="panic")
+            return
+        r1, r2, ref, ref2 = v
+        ctx.cover("compared", True)
+        if r1 != ref:
+            ctx.fail("comparison differs from rpmvercmp", "compare_version_string", a=a.hex(), b=b.hex(), got=r1, expected=ref, kind="ref")
+        if r2 != ref2:
+            ctx.fail("comparison differs from rpmvercmp", "compare_version_string", a=b.hex(), b=a.hex(), got=r2, expected=ref2, kind="ref")
+        if r1 != -r2:
+            ctx.fail("comparison is not antisymmetric", "compare_version_string", a=a.hex(), b=b.hex(), got=r1, swapped=r2, kind="antisym")
+    ex.run_all(setup, body, on_path)
+
+
+_BIG = b"1844674407370955161"      # 19 digits: one more digit crosses 2^64
+PREFIXED = {
+    "big64": (_BIG, _BIG, 1, 1), "big64_2": (_BIG, _BIG, 2, 2), "big_vs_bigger": (b"9" * 20, b"9" * 20, 1, 1), "zeros": (b"000", b"0", 2, 2),
+    "dot_big": (b"1." + _BIG, b"1." + _BIG, 2, 2), "alpha_long": (b"abcdefghijklmnopqrstuvwxyz", b"abcdefghijklmnopqrstuvwxyz", 1, 2), "tilde": (b"1.0~", b"1.0", 2, 2),
+    "caret": (b"1.0^", b"1.0", 2, 2), "sep_runs": (b"1...", b"1.", 2, 2),
+}
+for _k, _v in PREFIXED.items():
+    HARNESSES["c13_prefixed_" + _k] = (lambda v: (lambda ctx: c13_prefixed(ctx, *v)))(_v)
+
+
+def c13_evr(ctx, le1, le2, lv, lr):
+    """Evr ordering: epoch (empty = 0), then version, then release, each by rpmvercmp; PartialEq-equal values compare Equal"""
+    cmpf = ctx.impl_fn("cmp", "Ord", "Evr")
+    eqf = ctx.impl_fn("eq", "PartialEq", "Evr")
+    ex = Exec(ctx.funcs, intrinsics.I)
+    ctx.stats = ex.stats
+    ctx.bounds = "two EVRs: epochs of %d and %d symbolic bytes from {0-9}, versions of %d and releases of %d symbolic ASCII bytes each" % (le1, le2, lv, lr)
+    from harnesses_text import evr_val
+
+    def setup(e):
+        inp = [sym_bytes(e, "e1", le1, 0x30, 0x39), sym_bytes(e, "v1", lv), sym_bytes(e, "r1", lr), sym_bytes(e, "e2", le2, 0x30, 0x39), sym_bytes(e, "v2", lv), sym_bytes(e, "r2", lr)]
+        return inp
+
+    def body(e, inp):
+        a = evr_val(inp[0], inp[1], inp[2])
+        b = evr_val(inp[3], inp[4], inp[5])
+        from symex import Ref, Cell
+        r = ORD[e.call_fn(cmpf, [Ref(Cell(a)), Ref(Cell(b))]).variant]
+        eq = e.call_fn(eqf, [Ref(Cell(a)), Ref(Cell(b))])
+        iseq = e.decide(eq.e)
+        zero = [z3.BitVecVal(0x30, 8)]
+        ref = refs.rpmvercmp(e, inp[0] or zero, inp[3] or zero)
+        if ref == 0:
+            ref = refs.rpmvercmp(e, inp[1], inp[4])
+        if ref == 0:
+            ref = refs.rpmvercmp(e, inp[2], inp[5])
+        return r, iseq, ref
+
+    def on_path(e, inp, out):
+        k, v = out
+        wit = dict(zip(["e1", "v1", "r1", "e2", "v2", "r2"], [model_bytes(e, x).hex() for x in inp]))
+        if k != "return":
+            ctx.fail("EVR comparison panics", "Evr::cmp", kind="panic", **wit)
+            return
+        r, iseq, ref = v
+        ctx.cover("equal pair", iseq)
+        ctx.cover("unequal pair", not iseq)
+        if r != ref:
+            ctx.fail("EVR ordering differs from epoch/version/release rpmvercmp", "Evr::cmp", kind="evr", got=r, expected=ref, **wit)
+        if iseq and r != 0:
+            ctx.fail("EVRs that are equal (==) do not compare as Equal", "Evr::eq / Evr::cmp", kind="evreq", got=r, **wit)
+
+    ex.run_all(setup, body, on_path)
+
+
+for _s in [(0, 0, 1, 1), (0, 1, 1, 1), (1, 0, 1, 1), (1, 1, 1, 1), (0, 1, 1, 0), (2, 1, 1, 0)]:
+    HARNESSES["c13_evr_%d_%d_%d_%d" % _s] = (lambda s: (lambda ctx: c13_evr(ctx, *s)))(_s)
 
 
 def c13_trans(ctx, l1, l2, l3):
@@ -190,10 +298,15 @@ def main():
     ap.add_argument("--out", required=True)
     ap.add_argument("--seed", type=int, default=0)
     ap.add_argument("--replay-dir", default=None)
+    ap.add_argument("--repo", default="/repo")
     a = ap.parse_args()
     t0 = time.time()
+    import symex as _sx
+    _sx.REPO_ROOT[0] = a.repo
     res = {"harness": a.harness, "verdict": "ERROR", "failed": [], "covers": []}
+    import intrinsics2  # noqa: F401
     import harnesses_text  # noqa: F401  (registers the C15/C19 harnesses)
+    import harnesses_pkg  # noqa: F401
     try:
         funcs = mir.parse_mir(open(a.mir).read())
         ctx = Ctx(funcs, Native(a.native), a.seed)
